@@ -39,7 +39,7 @@ pub fn run(ctx: &Ctx, out: &mut Outcome) {
         enumerate_ack_subsets(ctx, out);
         enumerate_netcode_grid(ctx, out);
     }
-    super::run_loop(ctx, out, 160_000, 8_000_000, 16, one_run);
+    super::run_loop(ctx, out, 480_000, 12_000_000, 16, one_run);
 }
 
 fn enc(p: &Packet) -> Option<Vec<u8>> {
